@@ -19,6 +19,10 @@ const (
 	stUndecided = "undecided"
 	stVacuous   = "vacuous"
 	stKnown     = "known-finding"
+	// stSkipped: the rule's structural pattern could not be bound on this tree (the code was
+	// written differently from what the rule understands).  Nothing is claimed and nothing
+	// is reported: a rule may only fail on positive evidence.  Skips are listed in the evidence.
+	stSkipped = "not-evaluated"
 )
 
 // An Obligation is one instance of a rule on one construct of the repository.
@@ -59,6 +63,12 @@ func (r *Rec) fail(rule, construct, pos, detail string) *Obligation {
 }
 func (r *Rec) undecided(rule, construct, pos, detail string) {
 	r.add(rule, construct, pos, stUndecided, detail)
+}
+
+// skip records that a rule could not be evaluated on a construct because the code has a
+// shape the rule does not understand.  It does not fail the check.
+func (r *Rec) skip(rule, construct, pos, detail string) {
+	r.add(rule, construct, pos, stSkipped, detail)
 }
 func (r *Rec) check(cond bool, rule, construct, pos, okDetail, failDetail string) bool {
 	if cond {
@@ -158,6 +168,16 @@ type propInfo struct {
 	Assumptions []string
 }
 
+func (r *Rec) skipped() int {
+	n := 0
+	for _, o := range r.Obls {
+		if o.Status == stSkipped {
+			n++
+		}
+	}
+	return n
+}
+
 func (r *Rec) tally() (n, okN, viol, und, vac, known int) {
 	for _, o := range r.Obls {
 		n++
@@ -199,7 +219,7 @@ func writeEvidence(dir string, p *propInfo, r *Rec, tier string, seed int64, wal
 	var samples []Obligation
 	seen := map[string]bool{}
 	for _, o := range r.Obls {
-		if o.Status != stOK || !seen[o.Rule] {
+		if (o.Status != stOK && o.Status != stSkipped) || !seen[o.Rule] {
 			samples = append(samples, o)
 			seen[o.Rule] = true
 		}
@@ -220,6 +240,7 @@ func writeEvidence(dir string, p *propInfo, r *Rec, tier string, seed int64, wal
 		"undecided":           und,
 		"vacuous":             vac,
 		"known_findings":      known,
+		"not_evaluated":       r.skipped(),
 		"evaluations":         n,
 		"distinct_nontrivial": len(distinct),
 		"rule":                "one obligation per (rule, construct) instance bound on the loaded source; distinct = distinct rule/construct keys; every obligation is non-trivial in that it names a construct that exists in the tree",
